@@ -95,6 +95,28 @@ Definition set_parameter_names (m : snet) (ps : list name) : res snet :=
   then Ok (with_nodes m (map (fun ns : name * sstate => (fst ns, set_param (snd ns) (mem (fst ns) ps))) (s_nodes m)))
   else Err (EMissingNode ""%string).
 
+(** In-place writes to one node state through a reference: [model[n].uses_meta = b] (the
+    InstructionsMapper setter, as elfi/examples/bdm.py does), [model.get_state(n)['attr_dict'][key] = b] /
+    [model.source_net.nodes[n]['attr_dict'][key] = b] (as Prior.__init__ does for '_parameter').  The
+    state is a value of the model it belongs to: nothing else changes. *)
+Inductive sflag := FUsesMeta | FUsesBatchSize | FUsesObserved | FParameter.
+
+Definition set_flag (st : sstate) (f : sflag) (b : bool) : sstate :=
+  {| s_output := s_output st; s_has_op := s_has_op st; s_stochastic := s_stochastic st;
+     s_observable := s_observable st;
+     s_uses_observed := match f with FUsesObserved => b | _ => s_uses_observed st end;
+     s_uses_batch_size := match f with FUsesBatchSize => b | _ => s_uses_batch_size st end;
+     s_uses_meta := match f with FUsesMeta => b | _ => s_uses_meta st end;
+     s_parameter := match f with FParameter => b | _ => s_parameter st end;
+     s_opid := s_opid st |}.
+
+Definition write_flag (m : snet) (n : name) (f : sflag) (b : bool) : snet :=
+  with_nodes m (map (fun ns : name * sstate =>
+                       if String.eqb (fst ns) n then (fst ns, set_flag (snd ns) f b) else ns) (s_nodes m)).
+
+Definition set_node_flag (m : snet) (n : name) (f : sflag) (b : bool) : res snet :=
+  if has n (s_nodes m) then Ok (write_flag m n f b) else Err (EMissingNode n).
+
 (** ---- edit scripts over several live models ---- *)
 Inductive eop :=
 | EAddNode (h : nat) (n : name) (st : sstate) (parents : list name) (obs : option value)
@@ -104,12 +126,13 @@ Inductive eop :=
 | ESetParams (h : nat) (ps : list name)
 | ESetObserved (h : nat) (n : name) (v : value)
 | ECopy (h : nat)
-| ESaveLoad (h : nat).
+| ESaveLoad (h : nat)
+| ESetFlag (h : nat) (n : name) (f : sflag) (b : bool).
 
 Definition handle_of (o : eop) : nat :=
   match o with
   | EAddNode h _ _ _ _ | EAddEdge h _ _ _ | ERemove h _ | EBecome h _ _ | ESetParams h _
-  | ESetObserved h _ _ | ECopy h | ESaveLoad h => h
+  | ESetObserved h _ _ | ECopy h | ESaveLoad h | ESetFlag h _ _ _ => h
   end.
 
 Fixpoint set_nth {A} (i : nat) (a : A) (l : list A) : list A :=
@@ -131,6 +154,7 @@ Definition step_model (m : snet) (o : eop) : res snet :=
   | ESetParams _ ps => set_parameter_names m ps
   | ESetObserved _ n v => Ok (with_observed m (set n v (s_observed m)))   (* a plain dict write *)
   | ECopy _ | ESaveLoad _ => Ok m
+  | ESetFlag _ n f b => set_node_flag m n f b
   end.
 
 (** one step on the list of live models; a copy / reload appends a new handle *)
@@ -240,6 +264,9 @@ Definition op_ok (o : eop) (before after : snet) : bool :=
       (* nothing else disappears except private nodes left without any edge *)
       && forallb (fun ns : name * sstate =>
                     has (fst ns) (s_nodes after) || String.eqb (fst ns) n || is_private (fst ns)) (s_nodes before)
+  | ESetFlag _ n f b =>
+      (* a write to one node state changes that flag of that node and nothing else of the model *)
+      snet_eqb (write_flag before n f b) after
   | _ => true
   end.
 
